@@ -235,6 +235,98 @@ def _reader(ctx, m, T, docs) -> None:
                f"slots written by the token arms but never read by _check_parsed: {sorted(written - read)}", m.rel)
 
 
+def _truth(e: ast.expr):
+    """truth table of a boolean combination of atoms; `X is not None` is the negation of the atom `X is None`"""
+    atoms: list[str] = []
+
+    def atom(n):
+        n = core.strip_casts(n)
+        if isinstance(n, ast.Compare) and len(n.ops) == 1 and isinstance(n.ops[0], ast.IsNot):
+            return nun(ast.Compare(n.left, [ast.Is()], n.comparators)), True
+        return nun(n), False
+
+    def ev(n, env):
+        n = core.strip_casts(n)
+        if isinstance(n, ast.BoolOp):
+            vals = [ev(v, env) for v in n.values]
+            return all(vals) if isinstance(n.op, ast.And) else any(vals)
+        if isinstance(n, ast.UnaryOp) and isinstance(n.op, ast.Not):
+            return not ev(n.operand, env)
+        a, neg = atom(n)
+        return env[a] != neg
+
+    def collect(n):
+        n = core.strip_casts(n)
+        if isinstance(n, ast.BoolOp):
+            for v in n.values:
+                collect(v)
+        elif isinstance(n, ast.UnaryOp) and isinstance(n.op, ast.Not):
+            collect(n.operand)
+        else:
+            a, _ = atom(n)
+            if a not in atoms:
+                atoms.append(a)
+    collect(e)
+    atoms.sort()
+    sat = set()
+    for bits in range(1 << len(atoms)):
+        env = {a: bool(bits >> i & 1) for i, a in enumerate(atoms)}
+        if ev(e, env):
+            sat.add(frozenset(a for a in atoms if env[a]))
+    return tuple(atoms), frozenset(sat)
+
+
+def _defaulting(ctx, m: core.Mod) -> None:
+    """'fields absent from the format are filled from the supplied now': a date field that was not parsed takes now's
+    value unless a coarser field was parsed, in which case it takes its minimum; absent time fields are 0"""
+    cp = m.func("Formatter._check_parsed")
+    nowp = core.params(cp)[-1]
+    order = ["year", "month", "day"]
+    blocks = {}
+    for st in core.body_no_doc(cp):
+        if isinstance(st, ast.If) and isinstance(st.test, ast.Compare) and isinstance(st.test.ops[0], ast.Is) \
+                and core.is_const(st.test.comparators[0], None) and isinstance(st.test.left, ast.Subscript) \
+                and nun(st.test.left.value) == "validated" and isinstance(st.test.left.slice, ast.Constant):
+            blocks[st.test.left.slice.value] = st
+    st = blocks.get("year")
+    ok = st is not None and [nun(s) for s in st.body] == [f"validated['year'] = {nowp}.year"] and not st.orelse
+    ctx.ob("DEFAULTS.fill", "_check_parsed/year", ok, f"`{nun(st)[:80] if st else None}`; an absent year is {nowp}.year", m.loc(st or cp))
+    for i, f in enumerate(order[1:], 1):
+        st = blocks.get(f)
+        if st is None or len(st.body) != 1 or not isinstance(st.body[0], ast.If) or len(st.body[0].body) != 1 or len(st.body[0].orelse) != 1:
+            ctx.unverified("DEFAULTS.fill", f"_check_parsed/{f}", "defaulting block not in the `if validated[f] is None: if <coarser parsed>: ... else: ...` form", m.loc(st or cp))
+            continue
+        inner = st.body[0]
+        want = ast.parse(" or ".join(f"parsed['{c}'] is not None" for c in order[:i]), mode="eval").body
+        same = _truth(inner.test) == _truth(want)
+        ctx.ob("DEFAULTS.fill", f"_check_parsed/{f}/when-reset", same,
+               f"an absent {f} is reset to 1 under `{nun(inner.test)}`; it must be exactly when any coarser field "
+               f"({', '.join(order[:i])}) was parsed - otherwise it is taken from {nowp} (e.g. 'MM' alone parsed on the 31st gives Feb 31)", m.loc(inner))
+        a, b = nun(inner.body[0]), nun(inner.orelse[0])
+        ok = a in (f"validated['{f}'] = parsed['{f}'] or 1", f"validated['{f}'] = 1") and \
+            b in (f"validated['{f}'] = parsed['{f}'] or {nowp}.{f}", f"validated['{f}'] = {nowp}.{f}")
+        ctx.ob("DEFAULTS.fill", f"_check_parsed/{f}/values", ok, f"reset `{a}`, fill `{b}`; must be 1 and {nowp}.{f}", m.loc(inner))
+    loops = [s for s in core.body_no_doc(cp) if isinstance(s, ast.For)]
+    ok = False
+    parts = []
+    for lp in loops:
+        try:
+            parts = list(core.fold(lp.iter, m))
+        except Exception:
+            continue
+        body = [nun(s) for s in lp.body]
+        v = nun(lp.target)
+        ok = sorted(parts) == ["hour", "microsecond", "minute", "second"] and body == [f"if validated[{v}] is None:\n    validated[{v}] = 0"]
+    ctx.ob("DEFAULTS.fill", "_check_parsed/time-fields", ok, f"absent time fields {parts} are set to 0", m.loc(loops[-1] if loops else cp))
+    # order: the year must be settled before day_of_year / day_of_week use it, month/day defaults come after them
+    body = core.body_no_doc(cp)
+    pos = {k: body.index(v) for k, v in blocks.items() if v in body}
+    users = [i for i, s in enumerate(body) if isinstance(s, ast.If) and nun(s.test) in ("parsed['day_of_year'] is not None", "parsed['day_of_week'] is not None")]
+    if users and {"year", "month", "day"} <= set(pos):
+        ctx.ob("DEFAULTS.order", "_check_parsed/year-first", pos["year"] < min(users) and max(users) < min(pos["month"], pos["day"]),
+               "the year default precedes the day-of-year / day-of-week resolution, which precedes the month/day defaults", m.loc(cp))
+
+
 def _fmt_lambda(lam: core.Lambda) -> tuple[str, str] | None:
     """f"{expr:spec}" -> (canonical expr, spec)"""
     b = lam.node.body
@@ -452,6 +544,8 @@ def run(ctx) -> None:
     _zone_and_extraction(ctx, m, T)
     _named_formats(ctx)
     _from_format(ctx)
+    _defaulting(ctx, m)
+    ctx.expect_min("DEFAULTS.fill", 6)
     ctx.expect_min("TABLES.language", 40)
     ctx.expect_min("TABLES.handler", 40)
     ctx.expect_min("TABLES.parse-arm", 30)
